@@ -139,7 +139,8 @@ func (d *Device) handleABSEvent(ie *input.InputEvent) {
 	}
 
 	// Put it always between -1.0 and 1.0 so we can deadzone the center
-	if analog.DeadzoneAtCenter {
+	// (an axis that reports negative values is there already: its centre is 0)
+	if analog.DeadzoneAtCenter && !canBeNegative {
 		value = value*2 - 1.0
 		canBeNegative = true
 	}
